@@ -1206,7 +1206,23 @@ def mk_via(name, t):
     return T('via', name, t)
 
 
+def _same_collection(a, b):
+    while a.tag == 'mut':
+        a = a[1]
+    while b.tag == 'mut':
+        b = b[1]
+    return a is b
+
+
 def mk_elemat(coll, i):
+    # `for i in 0..x.len() { .. x[i] .. }` visits each element of x in order, like `for e in x`; from 1: like `x.iter().skip(1)`
+    if i.tag == 'index' and i[1].tag == 'range' and CURRENT is not None:
+        r = i[1]
+        lo, hi = r[1], r[2]
+        if lo.tag == 'const' and lo[1] in (0, 1) and not isinstance(lo[1], bool) and hi.tag == 'call' and hi[1].split('::')[-1] == 'len' and len(hi[2]) == 1 \
+                and _same_collection(hi[2][0], coll):
+            el = mk_elem(CURRENT, coll)
+            return el if lo[1] == 0 else mk_via('skip', el)
     return T('elemat', coll, i)
 
 
